@@ -256,6 +256,17 @@ def one_interrupt(desc, build, k, position):
             raise plainrun.make_exc(f[0], nid, att)
 
     H.pre = pre
+    if ctx.get("S") is not None:
+        # store operations (read, write before it takes effect) are held at the gate as well: an interrupt can arrive while a value is
+        # being written, and run must wait for that operation
+        opn = [0]
+
+        def store_hook(kind, st):
+            if kind in ("rd", "wr_before"):
+                opn[0] += 1
+                I.drv.gate(("store", kind, st.name, opn[0]))
+
+        H.store_hook = store_hook
     H.post_extra = None
     old_post = H.post
 
